@@ -83,7 +83,9 @@ def parseDuration (s : List Nat) : Option Int :=
     | none => none
     | some q =>
       let n : Int := q.floor
-      some (if neg then -n else n)
+      -- time.ParseDuration reports an overflow of int64 nanoseconds as "invalid duration"
+      if n > 9223372036854775807 then none
+      else some (if neg then -n else n)
 
 def trimSpace (s : List Nat) : List Nat :=
   let isSp := fun b => b == 32 || b == 9 || b == 10 || b == 13
